@@ -108,7 +108,7 @@ theorem attachElt_deg (t : NodeTab) (e : Elt) (m : String) :
 
 /-! ### detaching -/
 
-theorem detach_count (t t' : NodeTab) (n : String) (c : Bool) (h : detach t n c = some t') (m : String) :
+theorem detach_count (keep : Bool) (t t' : NodeTab) (n : String) (c : Bool) (h : detach keep t n c = some t') (m : String) :
     countOf t' m = (if m = n ∧ c = true then countOf t m - 1 else countOf t m) := by
   induction t generalizing t' with
   | nil => simp [detach] at h; subst h; simp [countOf]
@@ -122,14 +122,21 @@ theorem detach_count (t t' : NodeTab) (n : String) (c : Bool) (h : detach t n c 
             cases c <;> simp [countOf, hx] at hcnt ⊢ <;> omega
           · have hxm : ¬ n = m := fun h2 => hm h2.symm
             rw [countOf_dropNode_ne _ _ _ hm]; simp [countOf, hx, hxm, hm]
-        · simp [detach, hx, hcnt, hdg] at h
+        · cases keep with
+          | false => simp [detach, hx, hcnt, hdg] at h
+          | true =>
+            simp [detach, hx, hcnt, hdg] at h; subst h
+            by_cases hm : m = n
+            · subst hm; cases c <;> simp [countOf, hx] at hcnt ⊢ <;> omega
+            · have hxm : ¬ n = m := fun h2 => hm h2.symm
+              simp [countOf, hx, hxm, hm]
       · simp [detach, hx, hcnt] at h; subst h
         by_cases hm : m = n
         · subst hm; cases c <;> simp [countOf, hx]
         · have hxm : ¬ n = m := fun h2 => hm h2.symm
           simp [countOf, hx, hxm, hm]
     · simp only [detach, hx, if_false] at h
-      cases hd : detach xs n c with
+      cases hd : detach keep xs n c with
       | none => simp [hd] at h
       | some t2 =>
         simp [hd] at h; subst h
@@ -139,7 +146,7 @@ theorem detach_count (t t' : NodeTab) (n : String) (c : Bool) (h : detach t n c 
           simp [countOf, hxm, this]
         · simp [countOf, hxm, this]
 
-theorem detach_deg (t t' : NodeTab) (n : String) (c : Bool) (h : detach t n c = some t') (m : String) :
+theorem detach_deg (keep : Bool) (t t' : NodeTab) (n : String) (c : Bool) (h : detach keep t n c = some t') (m : String) :
     degOf t' m = (if m = n then degOf t m - 1 else degOf t m) := by
   induction t generalizing t' with
   | nil => simp [detach] at h; subst h; simp [degOf]
@@ -153,14 +160,21 @@ theorem detach_deg (t t' : NodeTab) (n : String) (c : Bool) (h : detach t n c = 
             simp [degOf, hx]; omega
           · have hxm : ¬ n = m := fun h2 => hm h2.symm
             rw [degOf_dropNode_ne _ _ _ hm]; simp [degOf, hx, hxm, hm]
-        · simp [detach, hx, hcnt, hdg] at h
+        · cases keep with
+          | false => simp [detach, hx, hcnt, hdg] at h
+          | true =>
+            simp [detach, hx, hcnt, hdg] at h; subst h
+            by_cases hm : m = n
+            · subst hm; simp [degOf, hx]
+            · have hxm : ¬ n = m := fun h2 => hm h2.symm
+              simp [degOf, hx, hxm, hm]
       · simp [detach, hx, hcnt] at h; subst h
         by_cases hm : m = n
         · subst hm; simp [degOf, hx]
         · have hxm : ¬ n = m := fun h2 => hm h2.symm
           simp [degOf, hx, hxm, hm]
     · simp only [detach, hx, if_false] at h
-      cases hd : detach xs n c with
+      cases hd : detach keep xs n c with
       | none => simp [hd] at h
       | some t2 =>
         simp [hd] at h; subst h
@@ -170,17 +184,17 @@ theorem detach_deg (t t' : NodeTab) (n : String) (c : Bool) (h : detach t n c = 
           simp [degOf, hxm, this]
         · simp [degOf, hxm, this]
 
-theorem detachAll_count (ns : List String) (c : Bool) (t t' : NodeTab) (h : detachAll t ns c = .inr t') (m : String) :
+theorem detachAll_count (keep : Bool) (ns : List String) (c : Bool) (t t' : NodeTab) (h : detachAll keep t ns c = .inr t') (m : String) :
     countOf t' m = countOf t m - (if c then occ m ns else 0) := by
   induction ns generalizing t with
   | nil => simp [detachAll] at h; subst h; simp [occ]
   | cons n ns ih =>
     simp only [detachAll] at h
-    cases hd : detach t n c with
+    cases hd : detach keep t n c with
     | none => simp [hd] at h
     | some t2 =>
       simp [hd] at h
-      rw [ih t2 h, detach_count t t2 n c hd m]
+      rw [ih t2 h, detach_count keep t t2 n c hd m]
       cases c
       all_goals
         by_cases h : n = m
@@ -188,21 +202,44 @@ theorem detachAll_count (ns : List String) (c : Bool) (t t' : NodeTab) (h : deta
         · have h' : ¬ m = n := fun e => h e.symm
           simp [occ, h, h'] <;> omega
 
-theorem detachAll_deg (ns : List String) (c : Bool) (t t' : NodeTab) (h : detachAll t ns c = .inr t') (m : String) :
+theorem detachAll_deg (keep : Bool) (ns : List String) (c : Bool) (t t' : NodeTab) (h : detachAll keep t ns c = .inr t') (m : String) :
     degOf t' m = degOf t m - occ m ns := by
   induction ns generalizing t with
   | nil => simp [detachAll] at h; subst h; simp [occ]
   | cons n ns ih =>
     simp only [detachAll] at h
-    cases hd : detach t n c with
+    cases hd : detach keep t n c with
     | none => simp [hd] at h
     | some t2 =>
       simp [hd] at h
-      rw [ih t2 h, detach_deg t t2 n c hd m]
+      rw [ih t2 h, detach_deg keep t t2 n c hd m]
       all_goals
         by_cases h : n = m
         · subst h; simp [occ] <;> omega
         · have h' : ¬ m = n := fun e => h e.symm
           simp [occ, h, h'] <;> omega
+
+/-! ### with the guarded delete nothing raises -/
+
+theorem detach_total (t : NodeTab) (n : String) (c : Bool) : ∃ t', detach true t n c = some t' := by
+  induction t with
+  | nil => exact ⟨[], rfl⟩
+  | cons x xs ih =>
+    by_cases hx : x.name = n
+    · by_cases hcnt : (if c = true then x.count - 1 else x.count) = 0
+      · by_cases hdg : x.deg - 1 = 0
+        · exact ⟨dropNode xs n, by simp [detach, hx, hcnt, hdg]⟩
+        · exact ⟨⟨n, 0, x.deg - 1⟩ :: xs, by simp [detach, hx, hcnt, hdg]⟩
+      · exact ⟨⟨n, if c = true then x.count - 1 else x.count, x.deg - 1⟩ :: xs, by simp [detach, hx, hcnt]⟩
+    · obtain ⟨t2, h2⟩ := ih
+      exact ⟨x :: t2, by simp [detach, hx, h2]⟩
+
+theorem detachAll_total (ns : List String) (t : NodeTab) (c : Bool) : ∃ t', detachAll true t ns c = .inr t' := by
+  induction ns generalizing t with
+  | nil => exact ⟨t, rfl⟩
+  | cons n ns ih =>
+    obtain ⟨t2, h2⟩ := detach_total t n c
+    obtain ⟨t3, h3⟩ := ih t2
+    exact ⟨t3, by simp [detachAll, h2, h3]⟩
 
 end Lcapy.Cache
